@@ -4,7 +4,7 @@ from .c04 import FrameSpec
 class C08(FrameSpec):
     id = "C08"
     design_ref = "DESIGN.md §6 C08"
-    technique = "Lean 4 proof (every delivered frame is complete and bounded; every loop iteration consumes input or raises) with differential correspondence on adversarial streams"
+    technique = "Lean 4 proof (every delivered frame is complete and bounded; every loop iteration consumes input or raises; the exact-length reader modelled call by call and proved to refine the frame-level model) with differential correspondence on adversarial streams and per Read call, and the decoders' guards and exactReader.Read re-extracted from the source on every run (T3)"
     level_text = ("Lean 4 theorems over the same executable codec model as C04, for arbitrary byte streams, end-of-stream kinds and chunkings: a delivered frame always has exactly its "
                   "declared/fixed length and respects the maximum, premature end of stream raises, each iteration of the read loop consumes at least one byte or raises (so the loop "
                   "terminates, ending in the exception that closes the channel), and the bytes pulled per frame are bounded by max + header. Tied to the real decoders by differential "
